@@ -161,6 +161,15 @@ theorem digitsTail_adv (n : Nat) (s : Scanner) : Adv s (digitsTail n s) := by
       · exact Adv.refl s
     · exact Adv.refl s
 
+/-- consuming one character, counting it as a line when it is a line end -/
+theorem Adv.oneCounting {s : Scanner} {c : Char} (h : s.src[s.current]? = some c) :
+    Adv s { s with current := s.current + 1, line := if c == '\n' then s.line + 1 else s.line } := by
+  by_cases hc : c = '\n'
+  · subst hc
+    simpa using Adv.newline h
+  · have : (c == '\n') = false := by simpa using hc
+    simpa [this] using Adv.one h
+
 theorem readEscapedByte_adv (s : Scanner) : Adv s (readEscapedByte s).2 := by
   unfold readEscapedByte
   split
@@ -170,11 +179,11 @@ theorem readEscapedByte_adv (s : Scanner) : Adv s (readEscapedByte s).2 := by
     · exact Adv.refl s
     · dsimp only
       split
-      · exact Adv.one ha
+      · exact Adv.oneCounting ha
       · next b hb =>
         split
-        · exact Adv.one ha
-        · exact (Adv.one ha).trans (Adv.one hb)
+        · exact Adv.oneCounting ha
+        · exact (Adv.oneCounting ha).trans (Adv.oneCounting (s := { s with current := s.current + 1, line := if a == '\n' then s.line + 1 else s.line }) hb)
 
 theorem readEscapedBytesAux_adv (n : Nat) (acc : List Nat) (s : Scanner) :
     Adv s (readEscapedBytesAux n acc s).2 := by
